@@ -49,6 +49,7 @@ type stormCase struct {
 	MaxVersion      int           `json:"max_version,omitempty"`
 	Clients         []stormClient `json:"clients"`
 	Steps           []stormStep   `json:"steps,omitempty"`
+	Warn            bool          `json:"backend_warns,omitempty"` // error answers carry a warning (header flag 0x08; the error code is not at offset 0)
 }
 
 // sent is one request as sent, with what came back.
@@ -148,6 +149,9 @@ func runStorm(c *stormCase, rec *evid.Recorder) (*stormResult, *evid.Fail) {
 		maxV = primitive.ProtocolVersion4
 	}
 	e, err := startEnv(envOpts{Hosts: c.Hosts, NumConns: c.Conns, IdempotentGraph: c.IdempotentGraph, Keyspaces: []string{"ks1"}, Version: primitive.ProtocolVersion4, MaxVersion: maxV})
+	if err == nil && c.Warn {
+		e.Cluster.WarnOnUnprepared = true
+	}
 	if err != nil {
 		return nil, evid.Failf("harness-env", "cannot start environment: %v", err)
 	}
